@@ -184,3 +184,115 @@ package api
 //@   props C18
 //@   trusted
 //@   ensures true
+
+// -- devices, mounts, hooks between the OCI and the NRI representation (C14)
+//@ pure sameU32(p *uint32, o *OptionalUInt32) = (p == nil <==> o == nil) && (p != nil ==> deref(p) == o.Value)
+//@ func OptionalFileMode.Get
+//@   props C14 C13
+//@   ensures (o == nil ==> result == nil) && (o != nil ==> result != nil && fresh(result) && deref(result) == o.Value)
+//@ func LinuxDevice.ToOCI
+//@   props C14 C13
+//@   ensures [nil]  d == nil ==> result.Path == "" && result.Type == "" && result.Major == 0 && result.Minor == 0 && result.FileMode == nil && result.UID == nil && result.GID == nil
+//@   ensures [dev]  d != nil ==> result.Path == d.Path && result.Type == d.Type && result.Major == d.Major && result.Minor == d.Minor
+//@                  && sameU32(result.UID, d.Uid) && sameU32(result.GID, d.Gid) && (result.FileMode == nil <==> d.FileMode == nil) && (d.FileMode != nil ==> deref(result.FileMode) == d.FileMode.Value)
+//@ func FromOCILinuxDevices
+//@   props C14
+//@   ensures [len]  len(result) == len(o)
+//@   ensures [dev]  forall i int :: 0 <= i && i < len(o) ==> result[i] != nil && result[i].Path == o[i].Path && result[i].Type == o[i].Type && result[i].Major == o[i].Major && result[i].Minor == o[i].Minor
+//@                  && sameU32(o[i].UID, result[i].Uid) && sameU32(o[i].GID, result[i].Gid) && (o[i].FileMode == nil <==> result[i].FileMode == nil) && (o[i].FileMode != nil ==> deref(o[i].FileMode) == result[i].FileMode.Value)
+//@   loop 1 invariant 0 <= idx + 1 && idx + 1 <= len(o) && len(devices) == idx + 1 && (idx >= 0 ==> fresh(devices)) && (idx == 0 - 1 ==> devices == nil)
+//@   loop 1 invariant forall i int :: 0 <= i && i <= idx ==> devices[i] != nil && fresh(devices[i]) && devices[i].Path == o[i].Path && devices[i].Type == o[i].Type && devices[i].Major == o[i].Major && devices[i].Minor == o[i].Minor
+//@                  && sameU32(o[i].UID, devices[i].Uid) && sameU32(o[i].GID, devices[i].Gid) && (o[i].FileMode == nil <==> devices[i].FileMode == nil) && (o[i].FileMode != nil ==> deref(o[i].FileMode) == devices[i].FileMode.Value)
+//@ func FromOCIMounts
+//@   props C14
+//@   ensures [len]  len(result) == len(o)
+//@   ensures [mnt]  forall i int :: 0 <= i && i < len(o) ==> result[i] != nil && result[i].Destination == o[i].Destination && result[i].Type == o[i].Type && result[i].Source == o[i].Source && sameStrs(result[i].Options, o[i].Options)
+//@                  && (o[i].Options == nil || fresh(result[i].Options))
+//@   loop 1 invariant 0 <= idx + 1 && idx + 1 <= len(o) && len(mounts) == idx + 1 && (idx >= 0 ==> fresh(mounts)) && (idx == 0 - 1 ==> mounts == nil)
+//@   loop 1 invariant forall i int :: 0 <= i && i <= idx ==> mounts[i] != nil && fresh(mounts[i]) && mounts[i].Destination == o[i].Destination && mounts[i].Type == o[i].Type && mounts[i].Source == o[i].Source && sameStrs(mounts[i].Options, o[i].Options)
+//@                  && (o[i].Options == nil || fresh(mounts[i].Options))
+
+//@ func Int
+//@   props C14
+//@   ensures [nil]     v == nil ==> result == nil
+//@   ensures [own]     typeis(v, "int") ==> result != nil && result.Value == ifaceval(v, "int")
+//@   ensures [ptrnil]  typeis(v, "*int") && ifaceval(v, "*int") == nil ==> result == nil
+//@   ensures [ptr]     typeis(v, "*int") && ifaceval(v, "*int") != nil ==> result != nil && result.Value == deref(ifaceval(v, "*int"))
+//@   ensures [wrapnil] typeis(v, "*OptionalInt") && ifaceval(v, "*OptionalInt") == nil ==> result == nil
+//@   ensures [wrap]    typeis(v, "*OptionalInt") && ifaceval(v, "*OptionalInt") != nil ==> result != nil && result.Value == ifaceval(v, "*OptionalInt").Value
+//@   ensures [fresh]   result != nil ==> fresh(result)
+// (the element-wise equality of the argument and environment lists is DupStringSlice's contract; here only their lengths are carried through the loop)
+//@ pure hookFrom(x *Hook, h rspec.Hook) = x != nil && x.Path == h.Path && len(x.Args) == len(h.Args) && len(x.Env) == len(h.Env)
+//@      && (h.Timeout == nil <==> x.Timeout == nil) && (h.Timeout != nil ==> x.Timeout.Value == deref(h.Timeout))
+//@ func FromOCIHookSlice
+//@   props C14
+//@   ensures [len]  len(result) == len(o)
+//@   ensures [hook] forall i int :: 0 <= i && i < len(o) ==> hookFrom(result[i], o[i])
+//@   loop 1 invariant 0 <= idx + 1 && idx + 1 <= len(o) && len(hooks) == idx + 1 && (idx >= 0 ==> fresh(hooks)) && (idx == 0 - 1 ==> hooks == nil)
+//@   loop 1 invariant forall i int :: 0 <= i && i <= idx ==> hookFrom(hooks[i], o[i]) && fresh(hooks[i]) && (hooks[i].Args == nil || fresh(hooks[i].Args)) && (hooks[i].Env == nil || fresh(hooks[i].Env)) && (hooks[i].Timeout == nil || fresh(hooks[i].Timeout))
+//@ func KeyValue.ToOCI
+//@   props C14 C13
+//@   requires e != nil
+//@   ensures result == e.Key + "=" + e.Value
+
+// ---------------------------------------------------------------------------
+// Optional accessors and resource conversions between NRI and OCI (C14)
+// ---------------------------------------------------------------------------
+// Get: nil wrapper -> nil pointer; otherwise a pointer to a fresh copy of the value
+//@ template optGet(OT)
+//@ func $OT.Get
+//@   props C14 C13
+//@   ensures (o == nil ==> result == nil) && (o != nil ==> result != nil && fresh(result) && deref(result) == o.Value)
+//@ end
+//@ apply optGet(OptionalString)
+//@ apply optGet(OptionalInt32)
+//@ apply optGet(OptionalUInt32)
+//@ apply optGet(OptionalInt64)
+//@ apply optGet(OptionalUInt64)
+//@ apply optGet(OptionalBool)
+//@ pure sameI64(p *int64, o *OptionalInt64) = (p == nil <==> o == nil) && (p != nil ==> deref(p) == o.Value)
+//@ pure sameU64(p *uint64, o *OptionalUInt64) = (p == nil <==> o == nil) && (p != nil ==> deref(p) == o.Value)
+//@ pure sameBool(p *bool, o *OptionalBool) = (p == nil <==> o == nil) && (p != nil ==> deref(p) == o.Value)
+//@ pure noNilDC(s []*LinuxDeviceCgroup) = forall i int :: 0 <= i && i < len(s) ==> allocated(s[i])
+//@ func LinuxResources.ToOCI
+//@   props C14 C13
+//@   requires r != nil ==> noNilHPs(r.HugepageLimits) && noNilDC(r.Devices)
+//@   ensures [nil]   r == nil ==> result == nil
+//@   ensures [fresh] r != nil ==> result != nil && fresh(result) && result.Memory != nil && fresh(result.Memory) && result.CPU != nil && fresh(result.CPU)
+//@   ensures [mem]   r != nil && r.Memory != nil ==> sameI64(result.Memory.Limit, r.Memory.Limit) && sameI64(result.Memory.Reservation, r.Memory.Reservation) && sameI64(result.Memory.Swap, r.Memory.Swap) && sameI64(result.Memory.Kernel, r.Memory.Kernel) && sameI64(result.Memory.KernelTCP, r.Memory.KernelTcp) && sameU64(result.Memory.Swappiness, r.Memory.Swappiness) && sameBool(result.Memory.DisableOOMKiller, r.Memory.DisableOomKiller) && sameBool(result.Memory.UseHierarchy, r.Memory.UseHierarchy)
+//@   ensures [nomem] r != nil && r.Memory == nil ==> result.Memory.Limit == nil && result.Memory.Reservation == nil && result.Memory.Swap == nil && result.Memory.Kernel == nil && result.Memory.KernelTCP == nil && result.Memory.Swappiness == nil && result.Memory.DisableOOMKiller == nil && result.Memory.UseHierarchy == nil
+//@   ensures [cpu]   r != nil && r.Cpu != nil ==> sameU64(result.CPU.Shares, r.Cpu.Shares) && sameI64(result.CPU.Quota, r.Cpu.Quota) && sameU64(result.CPU.Period, r.Cpu.Period) && sameI64(result.CPU.RealtimeRuntime, r.Cpu.RealtimeRuntime) && sameU64(result.CPU.RealtimePeriod, r.Cpu.RealtimePeriod) && result.CPU.Cpus == r.Cpu.Cpus && result.CPU.Mems == r.Cpu.Mems
+//@   ensures [nocpu] r != nil && r.Cpu == nil ==> result.CPU.Shares == nil && result.CPU.Quota == nil && result.CPU.Period == nil && result.CPU.RealtimeRuntime == nil && result.CPU.RealtimePeriod == nil && result.CPU.Cpus == "" && result.CPU.Mems == ""
+//@   ensures [hp]    r != nil ==> len(result.HugepageLimits) == len(r.HugepageLimits) && (forall i int :: 0 <= i && i < len(r.HugepageLimits) ==> result.HugepageLimits[i].Pagesize == r.HugepageLimits[i].PageSize && result.HugepageLimits[i].Limit == r.HugepageLimits[i].Limit)
+//@   ensures [uni]   r != nil ==> (old(len(r.Unified)) == 0 ==> result.Unified == nil) && (old(len(r.Unified)) != 0 ==> result.Unified != nil && fresh(result.Unified))
+//@                   && (forall k string :: has(result.Unified, k) == old(has(r.Unified, k)) && result.Unified[k] == old(r.Unified[k]))
+//@   ensures [dev]   r != nil ==> len(result.Devices) == len(r.Devices) && (forall i int :: 0 <= i && i < len(r.Devices) ==> result.Devices[i].Allow == r.Devices[i].Allow && result.Devices[i].Type == r.Devices[i].Type
+//@                       && result.Devices[i].Access == r.Devices[i].Access && sameI64(result.Devices[i].Major, r.Devices[i].Major) && sameI64(result.Devices[i].Minor, r.Devices[i].Minor))
+//@   ensures [pids]  r != nil ==> (r.Pids == nil ==> result.Pids == nil) && (r.Pids != nil ==> result.Pids != nil && fresh(result.Pids) && result.Pids.Limit == r.Pids.Limit)
+//@   loop 1 invariant 0 <= idx + 1 && idx + 1 <= len(r.HugepageLimits) && allocated(o) && fresh(o) && o.Memory == pre(o.Memory) && o.CPU == pre(o.CPU) && len(o.HugepageLimits) == idx + 1 && (idx >= 0 ==> fresh(o.HugepageLimits)) && (idx == 0 - 1 ==> o.HugepageLimits == nil)
+//@   loop 1 invariant forall i int :: 0 <= i && i <= idx ==> o.HugepageLimits[i].Pagesize == r.HugepageLimits[i].PageSize && o.HugepageLimits[i].Limit == r.HugepageLimits[i].Limit
+//@   loop 2 invariant allocated(o) && fresh(o) && o.Memory == pre(o.Memory) && o.CPU == pre(o.CPU) && o.HugepageLimits == pre(o.HugepageLimits) && o.Unified != nil && fresh(o.Unified) && o.Unified != r.Unified
+//@   loop 2 invariant forall k string :: visited(k) ==> has(o.Unified, k) && o.Unified[k] == r.Unified[k]
+//@   loop 2 invariant forall k string :: has(o.Unified, k) ==> has(r.Unified, k) && o.Unified[k] == r.Unified[k]
+//@   loop 3 invariant 0 <= idx + 1 && idx + 1 <= len(r.Devices) && allocated(o) && fresh(o) && o.Memory == pre(o.Memory) && o.CPU == pre(o.CPU) && o.HugepageLimits == pre(o.HugepageLimits) && o.Unified == pre(o.Unified) && len(o.Devices) == idx + 1 && (idx >= 0 ==> fresh(o.Devices)) && (idx == 0 - 1 ==> o.Devices == nil)
+//@   loop 3 invariant forall i int :: 0 <= i && i <= idx ==> o.Devices[i].Allow == r.Devices[i].Allow && o.Devices[i].Type == r.Devices[i].Type && o.Devices[i].Access == r.Devices[i].Access && sameI64(o.Devices[i].Major, r.Devices[i].Major) && sameI64(o.Devices[i].Minor, r.Devices[i].Minor)
+//@ func FromOCILinuxResources
+//@   props C14
+//@   ensures [nil]   o == nil ==> result == nil
+//@   ensures [fresh] o != nil ==> result != nil && fresh(result)
+//@   ensures [mem]   o != nil ==> (o.Memory == nil ==> result.Memory == nil) && (o.Memory != nil ==> result.Memory != nil && fresh(result.Memory) && sameI64(o.Memory.Limit, result.Memory.Limit) && sameI64(o.Memory.Reservation, result.Memory.Reservation) && sameI64(o.Memory.Swap, result.Memory.Swap) && sameI64(o.Memory.Kernel, result.Memory.Kernel) && sameI64(o.Memory.KernelTCP, result.Memory.KernelTcp) && sameU64(o.Memory.Swappiness, result.Memory.Swappiness) && sameBool(o.Memory.DisableOOMKiller, result.Memory.DisableOomKiller) && sameBool(o.Memory.UseHierarchy, result.Memory.UseHierarchy))
+//@   ensures [cpu]   o != nil ==> (o.CPU == nil ==> result.Cpu == nil) && (o.CPU != nil ==> result.Cpu != nil && fresh(result.Cpu) && sameU64(o.CPU.Shares, result.Cpu.Shares) && sameI64(o.CPU.Quota, result.Cpu.Quota) && sameU64(o.CPU.Period, result.Cpu.Period) && sameI64(o.CPU.RealtimeRuntime, result.Cpu.RealtimeRuntime) && sameU64(o.CPU.RealtimePeriod, result.Cpu.RealtimePeriod) && result.Cpu.Cpus == o.CPU.Cpus && result.Cpu.Mems == o.CPU.Mems)
+//@   ensures [hp]    o != nil ==> len(result.HugepageLimits) == len(o.HugepageLimits) && (forall i int :: 0 <= i && i < len(o.HugepageLimits) ==> result.HugepageLimits[i] != nil && result.HugepageLimits[i].PageSize == o.HugepageLimits[i].Pagesize && result.HugepageLimits[i].Limit == o.HugepageLimits[i].Limit)
+//@   ensures [dev]   o != nil ==> len(result.Devices) == len(o.Devices) && (forall i int :: 0 <= i && i < len(o.Devices) ==> result.Devices[i] != nil && result.Devices[i].Allow == o.Devices[i].Allow && result.Devices[i].Type == o.Devices[i].Type
+//@                       && result.Devices[i].Access == o.Devices[i].Access && sameI64(o.Devices[i].Major, result.Devices[i].Major) && sameI64(o.Devices[i].Minor, result.Devices[i].Minor))
+//@   ensures [pids]  o != nil ==> (o.Pids == nil ==> result.Pids == nil) && (o.Pids != nil ==> result.Pids != nil && fresh(result.Pids) && result.Pids.Limit == o.Pids.Limit)
+//@   ensures [uni]   o != nil ==> (old(len(o.Unified)) == 0 ==> result.Unified == nil) && (old(len(o.Unified)) != 0 ==> result.Unified != nil && fresh(result.Unified))
+//@                   && (forall k string :: has(result.Unified, k) == old(has(o.Unified, k)) && result.Unified[k] == old(o.Unified[k]))
+//@   loop 1 invariant 0 <= idx + 1 && idx + 1 <= len(o.HugepageLimits) && allocated(l) && fresh(l) && l.Memory == pre(l.Memory) && l.Cpu == pre(l.Cpu) && len(l.HugepageLimits) == idx + 1 && (idx >= 0 ==> fresh(l.HugepageLimits)) && (idx == 0 - 1 ==> l.HugepageLimits == nil)
+//@   loop 1 invariant forall i int :: 0 <= i && i <= idx ==> l.HugepageLimits[i] != nil && fresh(l.HugepageLimits[i]) && l.HugepageLimits[i].PageSize == o.HugepageLimits[i].Pagesize && l.HugepageLimits[i].Limit == o.HugepageLimits[i].Limit
+//@   loop 2 invariant 0 <= idx + 1 && idx + 1 <= len(o.Devices) && allocated(l) && fresh(l) && l.Memory == pre(l.Memory) && l.Cpu == pre(l.Cpu) && l.HugepageLimits == pre(l.HugepageLimits) && len(l.Devices) == idx + 1 && (idx >= 0 ==> fresh(l.Devices)) && (idx == 0 - 1 ==> l.Devices == nil)
+//@   loop 2 invariant forall i int :: 0 <= i && i <= idx ==> l.Devices[i] != nil && fresh(l.Devices[i]) && l.Devices[i].Allow == o.Devices[i].Allow && l.Devices[i].Type == o.Devices[i].Type && l.Devices[i].Access == o.Devices[i].Access && sameI64(o.Devices[i].Major, l.Devices[i].Major) && sameI64(o.Devices[i].Minor, l.Devices[i].Minor)
+//@   loop 2 invariant forall i int :: 0 <= i && i < len(l.HugepageLimits) ==> l.HugepageLimits[i] != nil && l.HugepageLimits[i].PageSize == o.HugepageLimits[i].Pagesize && l.HugepageLimits[i].Limit == o.HugepageLimits[i].Limit
+//@   loop 3 invariant allocated(l) && fresh(l) && l.Memory == pre(l.Memory) && l.Cpu == pre(l.Cpu) && l.HugepageLimits == pre(l.HugepageLimits) && l.Devices == pre(l.Devices) && l.Pids == pre(l.Pids) && l.Unified != nil && fresh(l.Unified) && l.Unified != o.Unified
+//@   loop 3 invariant forall k string :: visited(k) ==> has(l.Unified, k) && l.Unified[k] == o.Unified[k]
+//@   loop 3 invariant forall k string :: has(l.Unified, k) ==> has(o.Unified, k) && l.Unified[k] == o.Unified[k]
